@@ -152,6 +152,11 @@ def run(prop, tier, seed, replay=None):
     mine = {}
     other = 0
     for v in viols_all:
+        if v.get("property") != prop and adapt and v.get("property") in ("C01", "C02", "C03"):
+            # an adapter program drives nothing but NewReader/NewWriter/NewIOReader/NewIOWriter: when
+            # the buffer oracles (structure, live results, pool ledger) fire there, the adapter has
+            # corrupted the buffer it wraps - that is C16's "without corrupting what was delivered"
+            v = dict(v, oracle="%s/%s" % (v.get("property"), v.get("oracle")), property=prop)
         if v.get("property") != prop:
             if v["kind"] == "violation":
                 other += 1
